@@ -64,9 +64,9 @@ type MapObj struct {
 type MapVal struct{ M *MapObj }
 
 type FuncVal struct {
-	Fn   *ssa.Function // nil: nil func
-	Env  []Value       // closure bindings
-	Recv Value         // bound method receiver (Fn takes it as first param) if HasRecv
+	Fn      *ssa.Function // nil: nil func
+	Env     []Value       // closure bindings
+	Recv    Value         // bound method receiver (Fn takes it as first param) if HasRecv
 	HasRecv bool
 }
 
